@@ -14,7 +14,7 @@ TRUSTED = [common.TEXT['chan'], workers.proc_class().text,
            'T4 a dead process\'s pipe ends are closed: once the child is observed dead the parent end reports EOF after the last message']
 ASSUMPTIONS = [
     'channel invariant B.1 (process result pipe): every message after the identity message is ((ok, value), user_state); proved for the writer in lemma L2',
-    'remote kinds: the front-end thread stores the received state before it exits, and "observed dead" implies that thread has exited (field hand-over, appendix B.8); its _fetch_results is under contract in the C01 cone',
+    'remote kinds: the backend writes the state as last assigned right after the outcome pair (L2r, the backend lemma of C01/C03 with its state clause) and the front-end thread stores exactly the message that follows the outcome pair, and nothing before it (L4r); "observed dead" implies that thread has exited (field hand-over, appendix B.8); persistent remote kind: the same two messages end the forwarding loop (C06.L3)',
     'thread kind shares memory with the child (documented exception in the property text)',
 ]
 
@@ -28,6 +28,7 @@ def fst(x):
 
 
 MUTANTS = [
+    ('pyworkers/remote.py', "            self._user_state = recv_msg(self._socket, comment='data: user state')\n            logger.debug('User state received')\n        logger.details('Result: {}', self._result)", "            recv_msg(self._socket, comment='data: user state')\n            logger.debug('User state received')\n        logger.details('Result: {}', self._result)", 'remote front end discards the received state'),
     ('pyworkers/worker.py', "        if not self.is_child:\n            raise RuntimeError('user_state can only be modified from within the worker')\n", "", 'parent may assign user_state'),
     ('pyworkers/process.py', "                self._result, self._user_state = self._result\n", "                self._result, _unused = self._result\n", 'state received from the child is discarded'),
     ('pyworkers/process.py', "            self._comms.child_end.put(((False, e), self._user_state))", "            self._comms.child_end.put(((False, e), None))", 'state not reported when the target raised'),
@@ -171,7 +172,46 @@ def build(ex):
         return z3.And(*conds)
     L2 = childrun.process_run_contract(ex, 'L2')
     L2i = childrun.process_run_injected(ex, 'L2i', 'C16')
-    return [(L1, None), (L2, None), (L2i, None), (L4, None), (L3, None), (L4b, None), (L5, None)] + ([(L4c, None)] if L4c is not None else [])
+
+    # ---------------------------------------------------------------- remote kind
+    from .workers import RW
+    L2r = childrun.backend_run_contract(ex, 'L2r', 'C16')
+
+    def fe_setup(ex_, env):
+        I = ex_.interp
+        sock = common.new_chan(ex_, 'Conn', 'data')
+        st0 = I.sym('state0')
+        attrs = {'_socket': sock, '_result': NONE, '_user_state': st0}
+        env['self'] = ex_.alloc(HObj(ex_.repo.cls(RW), attrs))
+        env['sock'] = sock
+        env['state0'] = st0
+
+    def state_taken(c):
+        ex_ = c.ex
+        cc = ex_.abs_classes['Conn']
+        h = ex_.heap[c.env['self'].addr].attrs
+        inq, ipos = cc.get(ex_, c.env['sock'], 'inq'), cc.get(ex_, c.env['sock'], 'ipos')
+        st = lower(h['_user_state'], ex_)
+        return z3.And(z3.Implies(ipos >= 2, st == inq[1]), z3.Implies(ipos < 2, st == c.env['state0'].t), ipos <= 2)
+    state_taken.__doc__ = ('the parent\'s user_state is the message that follows the outcome pair on the data socket (the state the backend sent) once both have been '
+                           'received, and the initial state until then')
+
+    def state_untouched(c):
+        ex_ = c.ex
+        h = ex_.heap[c.env['self'].addr].attrs
+        return lower(h['_user_state'], ex_) == c.env['state0'].t
+    state_untouched.__doc__ = 'a fetch that ends with an exception (connection lost after the outcome, unreceivable state message) leaves the initial state in place'
+
+    def pair_first(ex_, x, ipos):
+        lst = Val.vitems(x)
+        return z3.Implies(ipos == 0, z3.And(Val.is_v_tup(x), ValList.is_vl_cons(lst), ValList.is_vl_cons(ValList.vl_tl(lst)), ValList.is_vl_nil(ValList.vl_tl(ValList.vl_tl(lst)))))
+    L4r = Contract(
+        RW + '._fetch_results', lid='L4r', name='C16.L4r RemoteWorker._fetch_results takes the user_state from the message after the outcome pair, and only then',
+        params={'self': ('const', None)}, self_class=RW, setup=fe_setup,
+        ensures=[state_taken], raises={'ConnectionClosedError': state_untouched, 'AnyException': state_untouched}, raises_only=['ConnectionClosedError', 'AnyException'],
+        options={'__call_hooks__': dict(common.MSG_HOOKS), 'recv_closed_check': False, 'chan_elem_inv': {'data': pair_first},
+                 'recv_raises': {'data': ['AnyException']}})
+    return [(L1, None), (L2, None), (L2i, None), (L4, None), (L3, None), (L4b, None), (L5, None)] + ([(L4c, None)] if L4c is not None else []) + [(L2r, None), (L4r, None)]
 
 
 def replay(ob, repo):
